@@ -81,6 +81,18 @@ def data_variants(rng: Any) -> list[tuple[str, np.ndarray, np.ndarray, bool]]:
     f32 = base.astype(np.float32)
     out.append(("dtype-f32-vs-i32-same-values", f32, base.astype(np.int32), False))
     out.append(("fortran-order-same-content", np.asfortranarray(big), big.copy(), True))
+    # size-0 data: no bytes at all, dtype and shape are the whole content
+    out.append(("empty:dtype", np.zeros((0, n), np.float32), np.zeros((0, n), np.float64), False))
+    out.append(("empty:dtype-int-vs-float", np.zeros((0,), np.int64), np.zeros((0,), np.float64),
+                False))
+    out.append(("empty:shape", np.zeros((0, n), np.float64), np.zeros((n, 0), np.float64),
+                False))
+    out.append(("empty:shape-rank", np.zeros((0,), np.float64), np.zeros((0, 0), np.float64),
+                False))
+    out.append(("empty:equal", np.zeros((0, n), np.float64), np.empty((0, n), np.float64), True))
+    # 0-d data
+    out.append(("zero-dim:value", np.array(1.5), np.array(2.5), False))
+    out.append(("zero-dim:dtype", np.array(1.0, np.float32), np.array(1.0, np.float64), False))
     return out
 
 
